@@ -54,7 +54,16 @@ func kitArbitraryRequest(kc *kitCfg, pathShape int) (*envoy.CheckRequest, string
 	case pathCallback:
 		path = kc.cbPath + "?" + vn.String("callback-query", vn.Bound("callback-query-bytes", 14))
 	default:
-		path = cfg.GetLogout().GetPath() + vn.String("logout-tail", 3)
+		// a request for the logout path: bare, with a query or with a fragment (requests for other
+		// paths are the subject of the pathAny harnesses)
+		switch vn.Choice("logout-tail", 3) {
+		case 0:
+			path = cfg.GetLogout().GetPath()
+		case 1:
+			path = cfg.GetLogout().GetPath() + "?" + vn.String("logout-query", 3)
+		default:
+			path = cfg.GetLogout().GetPath() + "#" + vn.String("logout-fragment", 2)
+		}
 	}
 	scheme := vn.StringIn("req-scheme", 5, "htps")
 	return kitHTTPReq(scheme, host, path, headers), carried
